@@ -56,6 +56,7 @@ func checkC18(c *Ctx) {
 		r.Expect("C18-K1-bounds-sites", 10)
 	}
 	byteOrderRule(c, "C18-K10", []string{"dhcpv4/nclient4"}, 1)
+	platformWidthRule(c, "C18-K11", []string{"dhcpv4/nclient4"})
 	c18Reader(c, fn, "C18")
 	c18Writer(c)
 	c18ChecksumShape(c)
